@@ -228,7 +228,8 @@ def run(chk, tier, seed, replay=None):
         clires = iter(list(ex.map(cli_one, [c for c in cases if c.get('cli')])))
     results = [next(clires) if c.get('cli') else next(inres) for c in cases]
     recs = [record(c, r, ref) for c, r, ref in zip(cases, results, refs)]
-    chk.sample({'world': cases[20]['world'], 'args': cases[20]['args'], 'files': recs[20]['files']})
+    si = min(20, len(cases) - 1)
+    chk.sample({'world': cases[si]['world'], 'args': cases[si]['args'], 'files': recs[si]['files']})
     fd, path = tempfile.mkstemp(prefix='verif-xml-', suffix='.json')
     with os.fdopen(fd, 'w') as f:
         json.dump(recs, f)
